@@ -55,6 +55,24 @@ def showResp (r : Response) : String :=
   let user := match r.user with | some u => "user:" ++ u | none => "-"
   s!"{r.status} ran={ran} {user}"
 
+/-- the model's answer to ONE request on an engine's listener -/
+def respOf (st : St) (eng : String) (j : Json) : String :=
+  match st.engines.find? (·.1 == eng) with
+  | none => "bad-engine"
+  | some (_, e) =>
+    match configureBinds Facts.C04.internalBinds e.pub e.int with
+    | none => "bind-error"
+    | some binds =>
+      let addr := if jStr j "lis" == "pub" then e.pub else e.int
+      let regs := match st.regs.find? (·.1 == e.rs) with | some (_, l) => l | none => []
+      let rs := routesAt binds regs addr
+      let authMap := match j.getObjVal? "authok" with
+        | .ok (.obj kv) => kv.toList.map (fun (kv : String × Json) => (unhexStr kv.1, kv.2.getBool?.toOption.getD false))
+        | _ => ([] : List (Str × Bool))
+      let authOK := fun (a : Str) => match authMap.find? (·.1 = a) with | some (_, v) => v | none => false
+      let tok := tokenDecision Facts.C04.policy e.aud st.keys st.now (bytesOf (jStr j "hdr")) (parseAnalysis (jObj j "tok"))
+      showResp (serveConn authOK Facts.C04.authSelector Facts.C04.authPath e.auth rs tok (jStr j "m") (unhexStr (jStr j "t")))
+
 def step (st : St) (j : Json) : St × List String :=
   match jStr j "op" with
   | "cfg" =>
@@ -68,23 +86,10 @@ def step (st : St) (j : Json) : St × List String :=
       | .ok (.obj kv) => kv.toList.map (fun (kv : String × Json) => (kv.1, ({ int := jStr kv.2 "int", pub := jStr kv.2 "pub", auth := jBool kv.2 "auth", rs := jStr kv.2 "rs", aud := jStr kv.2 "aud" } : EngCfg)))
       | _ => ([] : List (String × EngCfg))
     ({ regs := regs, engines := engs, keys := (jStrs j "keys").map (fun c => { comment := c }), aud := jStr j "aud", now := jInt j "now" }, ["cfg"])
-  | "req" =>
-    match st.engines.find? (·.1 == jStr j "eng") with
-    | none => (st, ["bad-engine"])
-    | some (_, e) =>
-      match configureBinds Facts.C04.internalBinds e.pub e.int with
-      | none => (st, ["bind-error"])
-      | some binds =>
-        let addr := if jStr j "lis" == "pub" then e.pub else e.int
-        let regs := match st.regs.find? (·.1 == e.rs) with | some (_, l) => l | none => []
-        let rs := routesAt binds regs addr
-        let authMap := match j.getObjVal? "authok" with
-          | .ok (.obj kv) => kv.toList.map (fun (kv : String × Json) => (unhexStr kv.1, kv.2.getBool?.toOption.getD false))
-          | _ => ([] : List (Str × Bool))
-        let authOK := fun (a : Str) => match authMap.find? (·.1 = a) with | some (_, v) => v | none => false
-        let tok := tokenDecision Facts.C04.policy e.aud st.keys st.now (bytesOf (jStr j "hdr")) (parseAnalysis (jObj j "tok"))
-        let resp := serveConn authOK Facts.C04.authSelector Facts.C04.authPath e.auth rs tok (jStr j "m") (unhexStr (jStr j "t"))
-        (st, [showResp resp])
+  | "req" => (st, [respOf st (jStr j "eng") j])
+  | "overlap" =>
+    -- two requests in flight at the same time on one engine (the first with a slow body): each is answered as if it were alone
+    (st, ["A:" ++ respOf st (jStr j "eng") (jObj j "ra") ++ " | B:" ++ respOf st (jStr j "eng") (jObj j "rb")])
   | "tok" =>
     -- bearer-token decision differential (tokenV2 in-package harness). Long headers are summarised by the harness.
     let hdrS := jStr j "hdr"
